@@ -33,7 +33,11 @@ where
     let is32 = std::mem::size_of::<T>() == 4;
     // scale < 0: "nearly normalised" input -- the weights sum to one up to a relative error far above rounding
     // (|scale| = 1: slightly above one, |scale| = 2: slightly below) and have to be normalised like any other
-    let scale = if scale < 0.0 {
+    // scale = -3: every weight and their total are SUBNORMAL numbers (exact multiples of a power of two, so that
+    // nothing is lost building them): still ordinary non-negative weights
+    let scale = if scale == -3.0 {
+        if is32 { 2f64.powi(-140) } else { 2f64.powi(-1060) }
+    } else if scale < 0.0 {
         let delta = if is32 { 2e-4 } else { 3e-9 };
         (if scale == -1.0 { 1.0 + delta } else { 1.0 - delta }) / total
     } else {
@@ -121,7 +125,7 @@ pub fn replay(args: &[String]) {
     let cases = read_ndjson(&args[0]);
     let mut acc = Acc { evals: 0, strict: 0, exact: 0, bad: vec![] };
     for c in &cases {
-        for scale in [1.0, 0.37, 1000.0, -1.0, -2.0] {
+        for scale in [1.0, 0.37, 1000.0, -1.0, -2.0, -3.0] {
             one::<f64>(c, scale, &mut acc);
             one::<f32>(c, scale, &mut acc);
         }
